@@ -196,7 +196,7 @@ func (c *Ctx) seedInterval(v ssa.Value) (int64, int64, bool) {
 			}
 		}
 	case *ssa.Call:
-		if callee := x.Call.StaticCallee(); callee != nil && callee.Pkg != nil && callee.Pkg.Pkg.Path() == "math/rand" && (callee.Name() == "Int31n" || callee.Name() == "Intn" || callee.Name() == "Int63n") {
+		if callee := c.StaticCalleeOf(&x.Call); callee != nil && callee.Pkg != nil && callee.Pkg.Pkg.Path() == "math/rand" && (callee.Name() == "Int31n" || callee.Name() == "Intn" || callee.Name() == "Int63n") {
 			if n, ok := constInt(x.Call.Args[0]); ok && n > 0 {
 				return 0, n - 1, true
 			}
